@@ -107,7 +107,12 @@ def pin():
             'foreign_tax_1116': {'reader_line': '1040_s3.1', 'threshold': {'MarriedFilingJointly': 600.0, 'other': 300.0}},
             'schedule_b_rows': {'reader_line': '1040_sb.part_3', 'max_payers': 14},
             'educator_expenses': {'reader_line': '1040_s1.11', 'input': '1040_s1.educator_expenses', 'cap': 500.0},
-            'hsa_contribution': {'reader_line_suffix': '.hsa_deduction', 'input_suffix': '.hsa_contributions', 'surely_above': 20000.0},
+            # Form 8889: own contributions above (limit for the coverage type - employer contributions) are refused
+            # (published limits: Rev. Proc. 2020-32 / 2021-25 / 2022-24)
+            'hsa_contribution': {'reader_line_suffix': '.hsa_deduction', 'input_suffix': '.hsa_contributions',
+                                 'employer_suffix': '.employer_contribution', 'family_suffix': '.hdhp_plan_family',
+                                 'limit': {2021: {'self': 3600.0, 'family': 7200.0}, 2022: {'self': 3650.0, 'family': 7300.0},
+                                           2023: {'self': 3850.0, 'family': 7750.0}}[y]},
         }
         json.dump({'year': y, 'derived_from_repo_commit': core.git_head(core.REPO), 'gates': gates, 'limits': limits},
                   open(f'/verif/catalogues/gates_{y}.json', 'w'), indent=1, sort_keys=True)
